@@ -392,6 +392,28 @@ fn clone_of(w: &World, r: usize, id: u64) -> Result<Follower, String> {
 pub fn exec_ext(w: &mut World, step: &Step, touched: &mut Vec<usize>) -> Result<(), Violation> {
     let n = w.reps.len();
     match step {
+        Step::Undo { r, redo } => {
+            let r = (*r as usize) % n;
+            if w.undo.len() <= r || w.undo[r].is_none() {
+                return Ok(());
+            }
+            pre_txn(w, r);
+            let mut mgr = w.undo[r].take().unwrap();
+            let redo = *redo;
+            let res = catch(std::panic::AssertUnwindSafe(|| if redo { mgr.redo_blocking() } else { mgr.undo_blocking() }));
+            w.undo[r] = Some(mgr);
+            match res {
+                Err(p) => return v(w, w.mon.prop, &format!("panic:{}", p.split(' ').next().unwrap_or("")), format!("panic in {}: {}", if redo { "redo" } else { "undo" }, p)),
+                Ok(done) => {
+                    w.log.push(format!("r{} {} -> {}", w.reps[r].cfg.id, if redo { "redo" } else { "undo" }, done));
+                    if done {
+                        w.cnt.inc(if redo { "redo_effective" } else { "undo_effective" });
+                    }
+                }
+            }
+            w.collect(r, true)?;
+            touched.push(r);
+        }
         Step::Gc { r, ds } => {
             let r = (*r as usize) % n;
             let before = w.reps[r].dump();
@@ -558,6 +580,8 @@ pub struct Layout {
     pub uids: Vec<Uid>,
     pub widths: Vec<u32>,
     pub all: Vec<Uid>,
+    /// unit -> the unit of its redone copy (undo manager), for units of this branch
+    pub redone: HashMap<Uid, Uid>,
 }
 
 pub fn layout(rep: &Replica, h: &Handle) -> Option<Layout> {
@@ -591,9 +615,13 @@ pub fn layout(rep: &Replica, h: &Handle) -> Option<Layout> {
     let items = yrs::verif::branch_items(&txn, &h.id())?;
     let mut vis = vec![];
     let mut all = vec![];
+    let mut redone: HashMap<Uid, Uid> = HashMap::new();
     for it in items.iter() {
         for k in 0..it.len {
             let u = (it.id.client.get(), it.id.clock + k);
+            if let Some(r) = &it.redone {
+                redone.insert(u, (r.client.get(), r.clock + k));
+            }
             all.push(u);
             if !it.deleted && it.countable {
                 vis.push(u);
@@ -610,7 +638,7 @@ pub fn layout(rep: &Replica, h: &Handle) -> Option<Layout> {
         uids.push(vis[p]);
         p += *c as usize;
     }
-    Some(Layout { labels, uids, widths, all })
+    Some(Layout { labels, uids, widths, all, redone })
 }
 
 fn create_sticky(w: &mut World, r: usize, ty: u32, pos: u32, after: bool, edge: u8) -> Result<(), Violation> {
@@ -695,6 +723,7 @@ fn check_stickies(w: &mut World, r: usize) -> Result<(), Violation> {
     drop(txn);
     let mut lays: HashMap<String, Option<Layout>> = HashMap::new();
     let mut checks = 0;
+    let mut w_redone_checks = 0u64;
     let mut bad: Option<(String, String)> = None;
     for s in w.ext.stickies.iter() {
         let Some(h) = live.get(&s.c) else { continue };
@@ -750,10 +779,46 @@ fn check_stickies(w: &mut World, r: usize) -> Result<(), Violation> {
                 }
             }
         };
+        // an anchor that was deleted and brought back by undo: the index may follow the restored copy (`follow_redone`);
+        // normally that is the very gap where the element used to be, both readings are accepted
+        let want_redone: Option<u32> = s.anchor.and_then(|a| {
+            let mut cur = a;
+            let mut hops = 0;
+            while let Some(n) = lay.redone.get(&cur) {
+                cur = *n;
+                hops += 1;
+                if hops > 32 {
+                    return None;
+                }
+            }
+            if hops == 0 {
+                return None;
+            }
+            match lay.uids.iter().position(|u| *u == cur) {
+                // the copy holds the content of the element it restores: a link that leads to another element is not followed
+                // by this expectation (the links themselves come from the library, through hook H2)
+                Some(q) if lay.labels[q] != s.label && !s.label.contains('#') => None,
+                Some(q) => Some(lay.widths[..q].iter().sum::<u32>() + if s.after { 0 } else { lay.widths[q] }),
+                None => {
+                    let ai = lay.all.iter().position(|u| *u == cur)?;
+                    let visible: HashSet<&Uid> = lay.uids.iter().collect();
+                    Some(match lay.all[ai..].iter().find(|u| visible.contains(u)) {
+                        Some(next) => {
+                            let q = lay.uids.iter().position(|u| u == next).unwrap();
+                            lay.widths[..q].iter().sum::<u32>()
+                        }
+                        None => total,
+                    })
+                }
+            }
+        });
         let txn = rep.doc.transact();
         let got = catch(|| si.get_offset(&txn).map(|o| o.index));
         drop(txn);
         checks += 1;
+        if want_redone.is_some() {
+            w_redone_checks += 1;
+        }
         // population: was a byte-offset replica involved (creating or resolving) and did the history
         // produce non-ASCII text at all (then tombstones may hold multi-byte characters too)
         let bytes_involved = rep.kind == yrs::OffsetKind::Bytes || w.reps[s.created_on].kind == yrs::OffsetKind::Bytes;
@@ -770,7 +835,7 @@ fn check_stickies(w: &mut World, r: usize) -> Result<(), Violation> {
                 break;
             }
             Ok(Some(g)) => {
-                if g != want {
+                if g != want && Some(g) != want_redone {
                     bad = Some((format!("wrong-offset:{}", cls), format!("sticky index {:?} (anchor {} {:?}, created on r{}) resolves to {} on r{} ({:?}) in {}, expected {} ; visible: {:?}", si, s.label, s.anchor, w.reps[s.created_on].cfg.id, g, rep.cfg.id, rep.kind, s.c, want, lay.labels)));
                     break;
                 }
@@ -778,6 +843,7 @@ fn check_stickies(w: &mut World, r: usize) -> Result<(), Violation> {
         }
     }
     w.cnt.add("c14_resolutions_checked", checks);
+    w.cnt.add("c14_resolutions_of_undone_anchors", w_redone_checks);
     if let Some((k, d)) = bad {
         return v(w, "C14", &k, d);
     }
